@@ -11,7 +11,8 @@ RULE = ("Python decodes each literal (escapes \\\\ \\\" \\$ \\n \\r \\xHH) and c
         "bytes; streams: every string of <= 2 (quick) / <= 4 (thorough) items over {a, é, €, 😀, \\\\, \\\", \\$, \\n, \\x41, {, }, space} "
         "(exhaustive); every arrangement of 0..3 slots among pieces of that alphabet (k <= 2 exhaustive over single-item "
         "pieces, k = 3 sampled in quick / exhaustive in thorough), slot expressions with nested braces / brackets / calls / "
-        "string literals / nested interpolation; non-string slot values; slots inside functions (scope); malformed literals: "
+        "string literals / nested interpolation; non-string slot values; slots inside functions (scope); slots with side effects "
+        "(identical slot texts, literals evaluated repeatedly: each slot once, left to right, each time); malformed literals: "
         "each invalid escape / hex digit / lone `$` / bad interpolation start inserted at each position after multi-byte and "
         "multi-line text, expected line:col computed from the text.  Non-trivial = distinct (stream, multiset of alphabet "
         "classes / slot-expression kinds, outcome)")
@@ -145,6 +146,24 @@ def scope_scripts():
     ]
 
 
+def effect_scripts():
+    """slots are evaluated once each, left to right, every time the literal is evaluated — also when two slots have the same
+    text, and when the literal is evaluated again (loop, second call)"""
+    pre = ('n := 0\nlog := []\nfn next() { n += 1; log += [n]; return "s" + ["a", "b", "c", "d", "e", "f", "g", "h", "i", "j"][n - 1]; }\n'
+           'fn tag(t) { log += [t]; return t; }\n')
+    out = []
+    out.append((pre + 'print($"${next()}-${next()}-${next()}")\nprint(n)\n', "sa-sb-sc\n3\n"))
+    out.append((pre + 'print($"${next()}${next()}")\nprint($"${next()}${next()}")\nprint(n)\n', "sasb\nscsd\n4\n"))
+    out.append((pre + 'for [i, v] in [1, 2, 3] {\n    print($"é${next()}€${next()}")\n}\nprint(n)\n', "ésa€sb\nésc€sd\nése€sf\n6\n"))
+    out.append((pre + 'fn lit() { r := $"<${next()}|${next()}>"; return r; }\nprint(lit())\nprint(lit())\nprint(n)\n', "<sa|sb>\n<sc|sd>\n4\n"))
+    out.append((pre + 'print($"${tag("x")}${tag("y")}${tag("x")}${tag("z")}")\nprint(log)\n', "xyxz\n[\n    x,\n    y,\n    x,\n    z,\n]\n"))
+    out.append((pre + 'print($"${next()}${$"${next()}${next()}"}${next()}")\nprint(n)\n', "sasbscsd\n4\n"))
+    out.append((pre + 's := $"${next()} ${next()}" + $"${next()} ${next()}"\nprint(s)\n', "sa sbsc sd\n"))
+    out.append((pre + 'print($"${next()}${1}")\n', ""))       # a failing slot: the earlier slot has run, nothing is printed
+    out.append((pre + 'xs := [$"${next()}", $"${next()}", $"${next()}"]\nprint(xs == ["sa", "sb", "sc"])\n', "true\n"))
+    return out
+
+
 # ------------------------------------------------------------------------------------------ malformed literals
 BAD_PLAIN = [("escape", "\\q", 1), ("escape", "\\a", 1), ("escape", "\\é", 1), ("escape", "\\ ", 1), ("escape", "\\0", 1),
              ("escape", "\\N", 1), ("hex", "\\xg1", 2), ("hex", "\\x4g", 3), ("hex", "\\xé0", 2), ("hex", "\\x4😀", 3),
@@ -232,6 +251,8 @@ def run(ctx, model_ok):
             checks.append(("interp-nonstring", ("nonstr", kind, ps), src, "before\n", "103"))
     for s, o in scope_scripts():
         checks.append(("interp-scope", ("scope", s[:20]), s, o, "0"))
+    for i, (s, o) in enumerate(effect_scripts()):
+        checks.append(("interp-effects", ("effects", i), s, o, "103" if "${1}" in s else "0"))
     srcs = [c[2] for c in checks]
     impl, dis = tie.run(ctx, srcs, "strings", model_ok, project=tie.proj_full)
     bad = []
